@@ -275,6 +275,27 @@ fn run(sh: &mut Shard) {
             }
         }
     }
+    // the SAME value on both sides (one object, not two equal ones): through one name, an alias, a list element,
+    // a parameter passed twice, at top level and in a function — for every float (NaN: `x == x` is nee), every
+    // boundary integer, strings, and one value of every type
+    {
+        let mut vals: Vec<Expr> = float_values().into_iter().chain(float_neighbours().into_iter().take(12)).map(float_expr).collect();
+        vals.extend(lattice(Tier::Quick, seed).into_iter().filter(|v| v.abs() <= 2 || v.abs() >= (1i64 << 58)).map(lit_expr));
+        vals.extend(strings2().into_iter().take(8).map(|t| string(&t)));
+        vals.push(string("een tekst die lang genoeg is om niet klein te zijn"));
+        vals.extend(type_values().into_iter().map(|(_, e)| e));
+        let mut all_ops = ops.clone();
+        all_ops.extend(LOGIC_OPS.iter().cloned());
+        for v in &vals {
+            for op in &all_ops {
+                run_case(sh, "same-operand", &[let_("x", v.clone()), es(infix(id("x"), op.clone(), id("x")))]);
+                run_case(sh, "same-operand", &[let_("x", v.clone()), let_("y", id("x")), es(infix(id("x"), op.clone(), id("y")))]);
+                run_case(sh, "same-operand", &[let_("l", array(vec![v.clone()])), es(infix(index(id("l"), int(0)), op.clone(), index(id("l"), int(0))))]);
+                run_case(sh, "same-operand", &[es(func("f", &["p", "q"], vec![es(infix(id("p"), op.clone(), id("q")))])), let_("x", v.clone()), es(calln("f", vec![id("x"), id("x")]))]);
+                run_case(sh, "same-operand", &[es(call(func("", &[], vec![let_("x", v.clone()), es(prefix(Operator::Not, infix(id("x"), op.clone(), id("x"))))]), vec![]))]);
+            }
+        }
+    }
     let tv = type_values();
     let mut all_ops = ops.clone();
     all_ops.extend(LOGIC_OPS.iter().cloned());
